@@ -23,7 +23,7 @@ Traces == JsonDeserialize(IOEnv.TRACE_FILE)
 
 VARIABLES tid, l, verdict
 
-TolUlps == 4096      \* default-solver measures: see notes/C07.md for what the correct code measures
+TolUlps == 256       \* default-solver measures (unit: eps * norm-wise scale); the correct code measures <= 8
 
 Tag(c, k) == c \o ".k" \o ToString(k)
 
